@@ -47,8 +47,9 @@ def restore(saved):
         open(p, 'w').write(s)
 
 
-def run_check(prop, root):
-    p = subprocess.run([os.path.join(VERIF, 'check'), prop, '--repo', root], stdout=subprocess.PIPE,
+def run_check(prop, root, tier=None):
+    tier = tier or os.environ.get('SELFTEST_TIER', 'quick')
+    p = subprocess.run([os.path.join(VERIF, 'check'), prop, '--repo', root, '--tier', tier], stdout=subprocess.PIPE,
                        stderr=subprocess.PIPE, text=True)
     return p.returncode, p.stdout + p.stderr
 
